@@ -372,7 +372,8 @@ def replay_cmp(repo, fns, workdir, log, binary=None):
     binary = binary or build_binary(repo, log)
     if binary is None:
         return None
-    vals = [v for v in FMIX if not (isinstance(v, int) and abs(v) > 2**200)] + [2**55 - 1, -2**55 - 1, 2**62, 9007199254740993]
+    vals = [v for v in FMIX if not (isinstance(v, int) and abs(v) > 2**200)] + [2**55 - 1, -2**55 - 1, 2**62, 9007199254740993,
+            0.75, 0.7500000000000001, Fraction((9 * 2**52 + 3) * 2**60 + 1, 3 * 2**114), Fraction(2**107 + 2**54 + 1, 2**108), 0.5000000000000001]
     todo = []
     for a in vals:
         for b in vals:
